@@ -9,21 +9,21 @@ copy; commit = create + publish; compaction = create + publish + unlink of the o
   commits, compactions and unlinks follow (needs only "open handles survive unlink", which the
   model builds in by capturing content at open time): a reader opened before a change keeps
   returning the pre-change results.
-* `reader_open_succeeds_partial` — **partial**.  The full statement
-
-  ```
-  -- theorem reader_open_succeeds (w) (ss : schedule of commit/compaction programs and reader steps)
-  --   (closed : every file named by a published manifest exists when it is published) :
-  --   the reader's open does not fail and it sees exactly the manifest it copied
-  ```
-
-  is FALSE for the code as it exists: `Index::compact` unlinks the files of the manifest it
-  replaced while a reader that copied that manifest may still be about to open them
-  (`compact_breaks_open`, negative witness by `decide`).  Proved under the explicit decidable
-  hypothesis `windowProtected`/`openWindowProtected` (no file of the copied manifest is unlinked
-  or overwritten between the copy and the last open), which the harness evaluates on every
-  recorded schedule: then the open succeeds and the reader sees exactly the snapshot denoted by
-  the manifest it copied — one committed state.
+* `reader_open_succeeds` — **full strength for the repaired protocol** (commit fefbd27: the
+  manifest read guard is held until the last segment is open): for every schedule of the
+  repaired protocol (`legalFrom`) starting from a closed manifest the open succeeds and holds
+  exactly the snapshot of the manifest it copied.  The harness evaluates `legalFrom` on every
+  recorded schedule (it is false exactly when a publish falls into a reader's window or a file
+  of the manifest in force is removed).
+* `reader_open_succeeds_partial` / `reader_open_succeeds_sched_partial` — the window lemma the
+  full theorem rests on (hypothesis `windowProtected`/`openWindowProtected`: no file of the
+  copied manifest is unlinked or overwritten between the copy and the last open).  For the
+  ORIGINAL protocol (read guard released right after the copy) this was all that could be
+  proved: without the guard the unconditional statement is false — `Index::compact` unlinks the
+  files of the manifest it replaced while a reader that copied that manifest may still be
+  about to open them.  `compact_breaks_open` stays as the negative witness (by `decide`) for
+  the original protocol, `breakingSched_illegal` shows that schedule is excluded by the repaired
+  one, `reader_open_under_guard` is the atomic special case.
 * `reader_open_succeeds_commits` — full for commits: schedules without unlinks whose creates use
   fresh names never break an open.
 -/
@@ -450,8 +450,8 @@ example : ((run (exWorld, none)
 def breakingSched : List (Step Nat Nat Nat) :=
   .rd :: ((compactActs exWorld.manifest 2 0 102).map .env ++ [.rd, .rd])
 
-/-- **Negative witness**: the full statement fails in the model of the code as it is — the open
-fails although every published manifest was closed when it was published. -/
+/-- **Negative witness for the ORIGINAL protocol** (read guard released right after the copy):
+the open fails although every published manifest was closed when it was published. -/
 theorem compact_breaks_open :
     ((run (exWorld, none) breakingSched).2.map (·.failed)) = some true ∧
     openWindowProtected exWorld.manifest breakingSched = false := by decide
@@ -465,5 +465,113 @@ example : ((run (exWorld, none)
     = some (false, [(0, 0, 100), (1, 0, 101)]) := by decide
 example : openWindowProtected exWorld.manifest
     ([.rd, .rd, .rd] ++ (compactActs exWorld.manifest 2 0 102).map .env) = true := by decide
+
+/-! ## the repaired protocol: the open always succeeds (full strength) -/
+
+theorem closed_act (w : World κ μ γ) (a : Act κ μ γ)
+    (hc : closed w = true)
+    (hl : match a with
+          | .create n _ => (names w.manifest).contains n = false
+          | .unlink n => (names w.manifest).contains n = false
+          | .publish m => closed { w with manifest := m } = true) :
+    closed (act w a) = true := by
+  cases a with
+  | publish m => exact hl
+  | create n c =>
+    simp only [closed] at hc ⊢
+    have hp : protectedAct (names w.manifest) (Act.create (μ := μ) n c) = true := by
+      simp only [protectedAct, hl, Bool.not_false]
+    have : snapshot (act w (.create n c)).dir (act w (.create n c)).manifest = snapshot w.dir w.manifest :=
+      snapshot_congr w.dir _ w.manifest (fun x hx => lookup_act w (.create n c) (names w.manifest) x hx hp)
+    rw [this]; exact hc
+  | unlink n =>
+    simp only [closed] at hc ⊢
+    have hp : protectedAct (names w.manifest) (Act.unlink (μ := μ) (γ := γ) n) = true := by
+      simp only [protectedAct, hl, Bool.not_false]
+    have : snapshot (act w (.unlink n)).dir (act w (.unlink n)).manifest = snapshot w.dir w.manifest :=
+      snapshot_congr w.dir _ w.manifest (fun x hx => lookup_act w (.unlink n) (names w.manifest) x hx hp)
+    rw [this]; exact hc
+
+/-- before the copy: legal writer steps keep the manifest in force closed -/
+theorem legal_pre (pre : List (Act κ μ γ)) (post : List (Step κ μ γ)) : ∀ (w : World κ μ γ),
+    closed w = true → legalFrom w none (pre.map .env ++ .rd :: post) = true →
+    closed (pre.foldl act w) = true ∧
+      legalFrom (pre.foldl act w) (some (pre.foldl act w).manifest.length) post = true := by
+  induction pre with
+  | nil => intro w hc hl; exact ⟨hc, by simpa [legalFrom] using hl⟩
+  | cons a pre ih =>
+    intro w hc hl
+    cases a with
+    | create n c =>
+      simp only [List.map_cons, List.cons_append, legalFrom, Bool.and_eq_true, Bool.not_eq_true'] at hl
+      exact ih _ (closed_act w (.create n c) hc hl.1) hl.2
+    | unlink n =>
+      simp only [List.map_cons, List.cons_append, legalFrom, Bool.and_eq_true, Bool.not_eq_true'] at hl
+      exact ih _ (closed_act w (.unlink n) hc hl.1) hl.2
+    | publish m =>
+      simp only [List.map_cons, List.cons_append, legalFrom, Bool.and_eq_true] at hl
+      exact ih _ (closed_act w (.publish m) hc hl.1.2) hl.2
+
+/-- inside the window: a legal schedule never publishes, so the manifest in force stays the copy
+and neither creates nor unlinks touch its files -/
+theorem legal_window : ∀ (post : List (Step κ μ γ)) (w : World κ μ γ) (k : Nat),
+    legalFrom w (some k) post = true → windowProtected (names w.manifest) k post = true := by
+  intro post
+  induction post with
+  | nil => intro w k _; cases k <;> rfl
+  | cons s post ih =>
+    intro w k hl
+    cases k with
+    | zero => rfl
+    | succ k =>
+      cases s with
+      | rd =>
+        simp only [legalFrom] at hl
+        simpa [windowProtected] using ih w k hl
+      | env a =>
+        cases a with
+        | publish m => simp [legalFrom] at hl
+        | create n c =>
+          simp only [legalFrom, Bool.and_eq_true] at hl
+          simp only [windowProtected, protectedAct, Bool.and_eq_true]
+          exact ⟨hl.1, ih (act w (.create n c)) (k + 1) hl.2⟩
+        | unlink n =>
+          simp only [legalFrom, Bool.and_eq_true] at hl
+          simp only [windowProtected, protectedAct, Bool.and_eq_true]
+          exact ⟨hl.1, ih (act w (.unlink n)) (k + 1) hl.2⟩
+
+/-- **C06, open succeeds — full strength for the repaired protocol.**  Start from any world
+whose manifest is closed.  For EVERY schedule of commits, compactions, unlinks and reader steps
+that is a schedule of the repaired protocol (`legalFrom`: no publish while the reader holds the
+manifest read guard; creates and unlinks never touch files of the manifest in force; only
+closed manifests are published) the reader's open does not fail, opens everything, and holds
+exactly the snapshot denoted by the manifest in force when it copied it — one committed state.
+No hypothesis about the window is left: protection follows from the protocol. -/
+theorem reader_open_succeeds (w0 : World κ μ γ) (pre : List (Act κ μ γ)) (post : List (Step κ μ γ))
+    (hclosed : closed w0 = true)
+    (hlegal : legalFrom w0 none (pre.map .env ++ .rd :: post) = true) :
+    ∃ snap w' r', snapshot (pre.foldl act w0).dir (pre.foldl act w0).manifest = some snap ∧
+      run (w0, none) (pre.map .env ++ .rd :: post) = (w', some r') ∧
+      (finish w' r').failed = false ∧ (finish w' r').todo = [] ∧ (finish w' r').opened = snap := by
+  obtain ⟨hc, hl⟩ := legal_pre pre post w0 hclosed hlegal
+  have hprot := legal_window post _ _ hl
+  cases hs : snapshot (pre.foldl act w0).dir (pre.foldl act w0).manifest with
+  | none => simp [closed, hs] at hc
+  | some snap =>
+    have hmon : openWindowProtected w0.manifest (pre.map .env ++ .rd :: post) = true := by
+      rw [openWindowProtected_split]; exact hprot
+    obtain ⟨w', r', h1, h2⟩ := reader_open_succeeds_sched_partial w0 pre post snap hs hmon
+    exact ⟨snap, w', r', rfl, h1, h2⟩
+
+/-- the schedule of the original defect is not a schedule of the repaired protocol: the
+compaction's publish falls inside the reader's guard -/
+theorem breakingSched_illegal : legalFrom exWorld none breakingSched = false := by decide
+
+/-- non-vacuity: the same compaction after the reader finished is a legal schedule, and so is a
+commit (create + publish of a closed manifest) before the copy -/
+example : legalFrom exWorld none
+    ([.rd, .rd, .rd] ++ (compactActs exWorld.manifest 2 0 102).map .env) = true := by decide
+example : legalFrom exWorld none
+    [.env (.create 2 102), .env (.publish [(0, 0), (1, 1), (2, 0)]), .rd, .rd, .rd, .rd] = true := by decide
 
 end SL.C06
